@@ -5,7 +5,7 @@ import numpy as np
 from vmc.ref.c15_catalogue import (Entry, Spec, L, ten, mat, mask_for, cp_dec, tucker_dec, tt_dec, tr_dec, ttm_dec,
                                    parafac2_dec, tenalg_fn)
 
-ALL = (0, 1, 2)
+ALL = (0, 1, 2, 3)
 W = ("wrapper",)
 
 
@@ -245,11 +245,11 @@ def entries():
     for copy in (True, False):
         for arg in ("matrix", "vector"):
             tmd.append(Spec(f"copy[{copy}]+{arg}", TK.tucker_mode_dot, {"tucker_tensor": tkd(), "matrix_or_vector": mv[arg], "mode": 1, "copy": copy}, TKc,
-                            exempt=() if copy else ("tucker_tensor",), sizes=ALL if arg == "matrix" else (0, 1)))
+                            exempt=() if copy else ("tucker_tensor",), sizes=ALL if arg == "matrix" else (0, 1, 3)))
     add("tucker_tensor.tucker_mode_dot", [TK.tucker_mode_dot], tmd, "tucker_tensor")
     add("tucker_tensor.validate_tucker_rank", [TK.validate_tucker_rank],
         [Spec("float+fixed_modes", TK.validate_tucker_rank, {"tensor_shape": L(lambda c: list(c.shape)), "rank": 0.5, "fixed_modes": L(lambda c: [1, 0])},
-              {"tensor_shape": "list", "fixed_modes": "list-unsorted"}, sizes=(0, 1)),
+              {"tensor_shape": "list", "fixed_modes": "list-unsorted"}, sizes=(0, 1, 3)),
          Spec("int+fixed_modes", TK.validate_tucker_rank, {"tensor_shape": L(lambda c: list(c.shape)), "rank": 2, "fixed_modes": L(lambda c: [0])},
               {"tensor_shape": "list", "fixed_modes": "list"}, sizes=ALL),
          Spec("rank[list]", TK.validate_tucker_rank, {"tensor_shape": L(lambda c: list(c.shape)), "rank": L(lambda c: [2] * c.N)}, {"tensor_shape": "list", "rank": "list"}, sizes=ALL)],
@@ -263,7 +263,7 @@ def entries():
     add("TuckerTensor.mode_dot", [TK.TuckerTensor.mode_dot],
         [Spec("default(copy=False)", lambda self, m, mode: self.mode_dot(m, mode), {"self": tks, "m": mv["matrix"], "mode": 1}, {"self": "tucker"}, exempt=("self",), sizes=ALL),
          Spec("copy[True]+matrix", lambda self, m, mode: self.mode_dot(m, mode, copy=True), {"self": tks, "m": mv["matrix"], "mode": 1}, {"self": "tucker"}, sizes=ALL),
-         Spec("copy[True]+vector", lambda self, m, mode: self.mode_dot(m, mode, copy=True), {"self": tks, "m": mv["vector"], "mode": 1}, {"self": "tucker"}, sizes=(0, 1))], "tucker_tensor")
+         Spec("copy[True]+vector", lambda self, m, mode: self.mode_dot(m, mode, copy=True), {"self": tks, "m": mv["vector"], "mode": 1}, {"self": "tucker"}, sizes=(0, 1, 3))], "tucker_tensor")
 
     # ---- TT / TR / TT-matrix / PARAFAC2 tensors -------------------------------------------------------------
     ttd = lambda **kw: L(lambda c: tt_dec(c, **kw))
